@@ -182,7 +182,8 @@ def parse_swc(
     re_swc = re.compile(rf"^\s*{re_swc_cols_str}\s*([\s+-.0-9]*)$")
 
     last_group = 7 + len(extras) + 1
-    ignored_comment = f"# {' '.join(names.cols())}"
+    # the column header written by `to_swc`, after the leading `#` is stripped
+    ignored_comment = f" {' '.join(names.cols())}"
     flag = True
 
     comments = []
